@@ -92,9 +92,9 @@ def entropic_case(N, M=0):
 
     def fn(c):
         shape = (N, M) if M else (N,)
-        x = api.tensor(c, "x", shape, lo=-3, hi=3) if c.mode == "concrete" else api.tensor(c, "x", shape)
-        y = api.tensor(c, "y", shape, lo=-3, hi=3) if c.mode == "concrete" else api.tensor(c, "y", shape)
-        a = api.real(c, "a", pos=True, hi=3) if c.mode == "concrete" else api.real(c, "a", pos=True)
+        x = api.tensor(c, "x", shape)
+        y = api.tensor(c, "y", shape)
+        a = api.real(c, "a", pos=True)
         cst = api.real(c, "c")
         with facades.real_torch():
             m = EntropicRiskMeasure(1.0)
@@ -106,11 +106,11 @@ def entropic_case(N, M=0):
         if M:
             c.check("entropic output shape", tuple(m(x).shape) == (M,))
         dom = api.all_(*[api.le(p_, q_) for p_, q_ in zip(xs, ys)])
-        c.check("entropic monotone", api.implies(dom, api.ge(rx, ry)))
-        # The remaining axioms are decided in exponential form: exp(a*rho) is the executed term mean(exp(-a x)) (the
+        # The axioms are decided in exponential form: exp(a*rho) is the executed term mean(exp(-a x)) (the
         # code's log cancels against exp), and exp is strictly increasing, so  rho R t  <=>  exp(a*rho) R exp(a*t).
         mean = sum(xs[1:], xs[0]) / N
         E = lambda t: api.exp(a * t)  # noqa: E731
+        c.check("entropic monotone", api.implies(dom, api.ge(E(rx), E(ry))))
         rxc = rho(x + cst)
         if c.mode == "sym":
             # true hints that introduce the atoms the add-law / tangent-line instances need
